@@ -1,0 +1,13 @@
+//go:build verif
+
+package sender
+
+// VerifSendOne runs the real SendFiles loop against a file list that consists
+// of the single regular file name (read through src). The peer's requests are
+// whatever st.Conn.Reader supplies. For the verification harness under /verif.
+func VerifSendOne(st *Transfer, src FileSource, name string, size int64) error {
+	fl := &fileList{
+		Files: []file{{source: src, path: name, Wpath: name, regular: true, Length: size}},
+	}
+	return st.SendFiles(fl)
+}
